@@ -107,10 +107,11 @@ def gen_call(g, cfg, api, seed, mid=None):
         for _ in range(e):
             n = g.randint(2, 24)
             data.append(np.array([[G.r2(g, -5, 5) for _ in range(p)] for _ in range(n)], dtype=float).reshape(n, p))
-        rec["args"] = {"data": enc(data), "ratios": g.choice(RATIOS)}
+        rec["args"] = {"data": enc([G.vary_layout(g, d) for d in data]), "ratios": g.choice(RATIOS)}
     elif api in ("utils.add_edges", "utils.remove_edges"):
         p = g.randint(2, max(2, pmax)) if not huge else min(p, 33)
         A = G.rand_dag(g, p, weighted=g.random() < 0.5, density=(0.1 if huge else None))
+        A = G.vary_layout(g, A) if g.random() < 0.8 else (A != 0)
         rec["args"] = {"A": enc(A), "k": g.randint(0, 4)}
     else:
         raise ValueError(api)
